@@ -25,6 +25,8 @@ ANN_SETS = {'default': [DEFAULT_ANN], 'extra-derive': [DEFAULT_ANN, '#[derive(De
             # derives outside the required set listed more than once, adjacent and not adjacent
             'default-twice': [DEFAULT_ANN, DEFAULT_ANN], 'overlap': ['#[derive(Eq, Hash)]', '#[derive(Serialize, Eq, Hash)]'], 'repeat-in-line': ['#[derive(Eq, Hash, Eq)]'],
             # user derives whose names CONTAIN / extend the names of derives the backend manages itself
+            # the same lines with white-space / a line break around them (layout of the configuration string is not part of its meaning)
+            'trailing-ws': [DEFAULT_ANN + '\n', '#[derive(PartialOrd, Debug)] '], 'leading-ws': ['  ' + DEFAULT_ANN, '\t#[derive(PartialOrd)]\n'],
             'copy-like': ['#[derive(CopyGetters, DeepCopy)]'], 'name-like': ['#[derive(DebugStub, Cloneable, AsnTypeExt, Encoder, PartialEqual, Dec)]']}
 REQUIRED = ['AsnType', 'Debug', 'Clone', 'Decode', 'Encode', 'PartialEq']
 FLAGS = ['default_wildcard_imports', 'generate_from_impls', 'no_std_compliant_bindings', 'opaque_open_types']
@@ -34,7 +36,7 @@ def jobs(tier, seed):
     js = []
     for i, _ in enumerate(IMPORT_SETS):
         for a in ANN_SETS:
-            if tier == 'quick' and i > 0 and a in ('default-twice', 'overlap', 'repeat-in-line', 'copy-like', 'name-like'):
+            if tier == 'quick' and i > 0 and a in ('default-twice', 'overlap', 'repeat-in-line', 'copy-like', 'name-like', 'leading-ws'):
                 continue
             js.append(f"cfg-{i}-{a}")
     return js
